@@ -303,10 +303,23 @@ fn judge(
     res: &Resolution,
     obs: &Obs,
     signing: &Signing,
+    do_judged: bool,
     l: &mut Local,
 ) -> Option<Verdict> {
     let sc = SceneCtx { zone, qtype };
-    let signed = signing.is_signed();
+    // the DNSSEC clauses of the statement apply "with DO set on a signed zone"
+    let signed = do_judged;
+    if signing.is_signed() && !do_judged {
+        // DO clear (or no OPT) against a signed zone: the statement is silent about DNSSEC records
+        // here; whether any are sent is only logged
+        let dnssec_rrs = obs.answer_sigs.len() + obs.authority_sigs.len() + obs.authority.iter().filter(|r| r.rtype == rz::T_NSEC || r.rtype == rz::T_NSEC3).count();
+        if dnssec_rrs == 0 {
+            l.outcome("obs:do=0-on-signed-zone:no-dnssec-records");
+        } else {
+            let what = if !obs.answer_sigs.is_empty() { "rrsig-in-answer" } else if !obs.authority_sigs.is_empty() { "rrsig-in-authority" } else { "nsec-in-authority" };
+            l.outcome_sample(&format!("obs:do=0-on-signed-zone:dnssec-records-sent:{what}:t={}", rz::type_name(qtype)), || json!({"qname": qname.to_string(), "qtype": qtype}));
+        }
+    }
     let tn = rz::type_name(qtype);
     let first = &res.first().1;
     if matches!(first, Step::OutOfZone) {
@@ -630,17 +643,77 @@ fn judge(
 // ------------------------------------------------------------------------------------------
 // running
 
-fn case_json(spec: &ZoneSpec, signing: &Signing, upper: bool, qname: &str, qtype: u16) -> Value {
-    json!({"zone": spec.to_json(), "zone_text": spec.to_string(), "signing": signing.tag(), "upper_case_names": upper, "qname": qname, "qtype": qtype, "qtype_name": rz::type_name(qtype)})
+/// One materialisation of a zone plus the shape of the requests sent to it: every knob the
+/// anchored server code reads.
+#[derive(Clone, Debug, PartialEq)]
+struct Mat {
+    signing: Signing,
+    /// every zone name and query name in upper case
+    upper: bool,
+    shape: vzone::QueryShape,
+    opts: vzone::BuildOpts,
+}
+
+impl Mat {
+    fn std(signing: &Signing, upper: bool) -> Mat {
+        Mat { signing: signing.clone(), upper, shape: if signing.is_signed() { vzone::QueryShape::DO } else { vzone::QueryShape::PLAIN }, opts: vzone::BuildOpts::default() }
+    }
+    fn is_std(&self) -> bool {
+        *self == Mat::std(&self.signing, self.upper)
+    }
+    fn do_judged(&self) -> bool {
+        self.signing.is_signed() && self.shape.edns && self.shape.do_bit
+    }
+    fn tag(&self) -> String {
+        format!("{}{}|{}|{}", self.signing.tag(), if self.upper { "|UPPER" } else { "" }, self.shape.tag(), self.opts.tag())
+    }
+    fn to_json(&self) -> Value {
+        json!({"signing": self.signing.tag(), "upper_case_names": self.upper,
+               "edns": self.shape.edns, "do": self.shape.do_bit, "payload": self.shape.payload, "rd": self.shape.rd, "cd": self.shape.cd, "ad": self.shape.ad,
+               "sqlite": self.opts.front == vzone::Front::Sqlite, "secondary": self.opts.secondary, "axfr_allow_all": self.opts.axfr_allow_all,
+               "allow_update": self.opts.allow_update, "is_dnssec_enabled": self.opts.is_dnssec_enabled})
+    }
+    fn from_json(v: &Value) -> Mat {
+        let signing = Signing::from_tag(v["signing"].as_str().unwrap_or("unsigned")).unwrap_or(Signing::Unsigned);
+        let mut m = Mat::std(&signing, v["upper_case_names"].as_bool().unwrap_or(false));
+        if let Some(e) = v["edns"].as_bool() {
+            m.shape = vzone::QueryShape {
+                edns: e,
+                do_bit: v["do"].as_bool().unwrap_or(false),
+                payload: v["payload"].as_u64().unwrap_or(4096) as u16,
+                rd: v["rd"].as_bool().unwrap_or(false),
+                cd: v["cd"].as_bool().unwrap_or(false),
+                ad: v["ad"].as_bool().unwrap_or(false),
+            };
+            m.opts = vzone::BuildOpts {
+                front: if v["sqlite"].as_bool().unwrap_or(false) { vzone::Front::Sqlite } else { vzone::Front::InMemory },
+                secondary: v["secondary"].as_bool().unwrap_or(false),
+                axfr_allow_all: v["axfr_allow_all"].as_bool().unwrap_or(false),
+                allow_update: v["allow_update"].as_bool().unwrap_or(false),
+                is_dnssec_enabled: v["is_dnssec_enabled"].as_bool(),
+            };
+        }
+        m
+    }
+}
+
+fn case_json(spec: &ZoneSpec, mat: &Mat, qname: &str, qtype: u16) -> Value {
+    let mut j = mat.to_json();
+    j["zone"] = spec.to_json();
+    j["zone_text"] = json!(spec.to_string());
+    j["qname"] = json!(qname);
+    j["qtype"] = json!(qtype);
+    j["qtype_name"] = json!(rz::type_name(qtype));
+    j
 }
 
 /// Build the zone as given, or with every name in upper case (`upper`): the store must treat
 /// names case-insensitively (RFC 1035 2.3.3), the reference folds case.
-fn build_mat(spec: &ZoneSpec, signing: &Signing, upper: bool) -> Result<vzone::Built, String> {
-    if upper {
-        vzone::build(&spec.upper_cased(), signing)
+fn build_mat(spec: &ZoneSpec, mat: &Mat) -> Result<vzone::Built, String> {
+    if mat.upper {
+        vzone::build_opts(&spec.upper_cased(), &mat.signing, &mat.opts)
     } else {
-        vzone::build(spec, signing)
+        vzone::build_opts(spec, &mat.signing, &mat.opts)
     }
 }
 
@@ -651,15 +724,17 @@ fn run_query(
     facts: &ZoneFacts,
     res: &Resolution,
     qname: &str,
-    upper: bool,
+    mat: &Mat,
     qtype: u16,
     rt: &tokio::runtime::Runtime,
     l: &mut Local,
 ) -> Option<(Verdict, String)> {
     l.eval();
-    let signed = built.signing.is_signed();
-    let sent = if upper { qname.to_ascii_uppercase() } else { qname.to_string() };
-    let asked = vcore::catch(|| vzone::ask(rt, &built.catalog, &sent, qtype, signed));
+    let sent = if mat.upper { qname.to_ascii_uppercase() } else { qname.to_string() };
+    let asked = vcore::catch(|| {
+        vzone::ask_raw(rt, &built.catalog, &vzone::query_bytes_shape(&sent, qtype, &mat.shape))
+            .and_then(|b| Message::from_vec(&b).map_err(|e| format!("response undecodable: {e}")))
+    });
     let m = match asked {
         Err(p) => {
             return Some((
@@ -672,7 +747,7 @@ fn run_query(
     };
     let obs = observe(&m);
     let qn = Name::parse(qname);
-    judge(zone, facts, &qn, qtype, res, &obs, &built.signing, l).map(|vd| {
+    judge(zone, facts, &qn, qtype, res, &obs, &built.signing, mat.do_judged(), l).map(|vd| {
         let txt = format!(
             "rcode={} aa={} answer={:?} authority={:?}",
             obs.rcode,
@@ -697,7 +772,7 @@ fn signings(thorough: bool) -> Vec<Signing> {
 }
 
 /// Remove owners from the spec while the same query still produces the same key.
-fn minimise(spec: &ZoneSpec, signing: &Signing, upper: bool, qname: &str, qtype: u16, key: &str, rt: &tokio::runtime::Runtime) -> ZoneSpec {
+fn minimise(spec: &ZoneSpec, mat: &Mat, qname: &str, qtype: u16, key: &str, rt: &tokio::runtime::Runtime) -> ZoneSpec {
     let mut cur = spec.clone();
     let mut scratch = Local::default();
     loop {
@@ -705,10 +780,10 @@ fn minimise(spec: &ZoneSpec, signing: &Signing, upper: bool, qname: &str, qtype:
         for i in 0..cur.owners.len() {
             let mut cand = cur.clone();
             cand.owners.remove(i);
-            let Ok(b) = build_mat(&cand, signing, upper) else { continue };
+            let Ok(b) = build_mat(&cand, mat) else { continue };
             let z = cand.reference();
             let res = rz::resolve(&z, &Name::parse(qname), qtype);
-            if let Some((vd, _)) = run_query(&b, &z, &facts_of(&z), &res, qname, upper, qtype, rt, &mut scratch) {
+            if let Some((vd, _)) = run_query(&b, &z, &facts_of(&z), &res, qname, mat, qtype, rt, &mut scratch) {
                 if vd.key == key {
                     cur = cand;
                     shrunk = true;
@@ -749,10 +824,14 @@ fn class_of(res: &Resolution) -> String {
 }
 
 /// `sigs`: materialisations with the names as written; `upper_sigs`: additional materialisations
-/// with every zone name AND every query name in upper case.
-fn run_zone(spec: &ZoneSpec, qnames: &[String], sigs: &[Signing], upper_sigs: &[Signing], rt: &tokio::runtime::Runtime, l: &mut Local, sample: bool) {
+/// with every zone name AND every query name in upper case; `knobs`: materialisations with
+/// non-default configuration / request shapes (see `knob_mats`).
+fn run_zone(spec: &ZoneSpec, qnames: &[String], sigs: &[Signing], upper_sigs: &[Signing], knobs: &[Mat], rt: &tokio::runtime::Runtime, l: &mut Local, sample: bool) {
     let zone = spec.reference();
     let facts = facts_of(&zone);
+    for sh in zone.deep_shapes() {
+        l.outcome(sh);
+    }
     // reference resolutions once per (qname, qtype)
     let mut refs: Vec<(usize, u16, Resolution)> = vec![];
     for (qi, qn) in qnames.iter().enumerate() {
@@ -762,20 +841,25 @@ fn run_zone(spec: &ZoneSpec, qnames: &[String], sigs: &[Signing], upper_sigs: &[
         }
     }
     let zone_text = spec.to_string();
-    let mats: Vec<(&Signing, bool)> = sigs.iter().map(|s| (s, false)).chain(upper_sigs.iter().map(|s| (s, true))).collect();
-    for (signing, upper) in mats {
-        let built = match build_mat(spec, signing, upper) {
+    let mats: Vec<Mat> = sigs.iter().map(|s| Mat::std(s, false)).chain(upper_sigs.iter().map(|s| Mat::std(s, true))).chain(knobs.iter().cloned()).collect();
+    for mat in &mats {
+        let (signing, upper) = (&mat.signing, mat.upper);
+        let built = match build_mat(spec, mat) {
             Ok(b) => b,
             Err(e) => {
-                l.violation("zone-build-failed", &e, || json!({"zone": spec.to_json(), "signing": signing.tag(), "upper_case_names": upper}));
+                l.violation("zone-build-failed", &e, || json!({"zone": spec.to_json(), "mat": mat.tag()}));
                 continue;
             }
         };
-        l.outcome(&format!("zones:{}{}", if signing.is_signed() { "signed" } else { "unsigned" }, if upper { ":upper-case" } else { "" }));
+        if mat.is_std() {
+            l.outcome(&format!("zones:{}{}", if signing.is_signed() { "signed" } else { "unsigned" }, if upper { ":upper-case" } else { "" }));
+        } else {
+            l.outcome(&format!("zones:knobs:{}", mat.tag()));
+        }
         for (qi, t, res) in &refs {
             let qn = &qnames[*qi];
             let class = class_of(res);
-            if *signing == Signing::Unsigned && !upper {
+            if *signing == Signing::Unsigned && !upper && mat.is_std() {
                 l.outcome(&format!("ref:{class}"));
                 if class != "DATA" && class != "OUTOFZONE" {
                     // per (zone, qname, outcome class): stays far below vcore's 40 M cap in the thorough tier
@@ -783,11 +867,11 @@ fn run_zone(spec: &ZoneSpec, qnames: &[String], sigs: &[Signing], upper_sigs: &[
                     let _ = t;
                 }
             }
-            if let Some((vd, resp)) = run_query(&built, &zone, &facts, res, qn, upper, *t, rt, l) {
+            if let Some((vd, resp)) = run_query(&built, &zone, &facts, res, qn, mat, *t, rt, l) {
                 let first = !l.has_violation_key(&vd.key);
                 l.violation(&vd.key, &vd.what, || {
-                    let min = if first { minimise(spec, signing, upper, qn, *t, &vd.key, rt) } else { spec.clone() };
-                    let mut j = case_json(&min, signing, upper, qn, *t);
+                    let min = if first { minimise(spec, mat, qn, *t, &vd.key, rt) } else { spec.clone() };
+                    let mut j = case_json(&min, mat, qn, *t);
                     j["response"] = json!(resp);
                     j["expected"] = json!(format!("{:?}", rz::resolve(&min.reference(), &Name::parse(qn), *t).steps));
                     j
@@ -796,7 +880,7 @@ fn run_zone(spec: &ZoneSpec, qnames: &[String], sigs: &[Signing], upper_sigs: &[
         }
         // QCLASS other than IN against the (class IN) zone: the statement does not say what is due
         // (REFUSED, NOTIMP, ...); only logged, one A query per name
-        if *signing == Signing::Unsigned && !upper {
+        if *signing == Signing::Unsigned && !upper && mat.is_std() {
             for qn in qnames {
                 if let Ok(bytes) = vzone::ask_raw(rt, &built.catalog, &vzone::query_bytes_class(qn, rz::T_A, 3, false)) {
                     if let Ok(m) = Message::from_vec(&bytes) {
@@ -818,8 +902,20 @@ fn run_zone(spec: &ZoneSpec, qnames: &[String], sigs: &[Signing], upper_sigs: &[
 /// Front-end differential: the same signed/unsigned zone behind the `SqliteZoneHandler` wrapper must
 /// give byte-identical responses (it forwards lookup / search / nsec_records / nsec3_records).
 fn run_front_diff(spec: &ZoneSpec, qnames: &[String], sigs: &[Signing], rt: &tokio::runtime::Runtime, l: &mut Local) {
-    for signing in sigs {
-        let (Ok(a), Ok(b)) = (vzone::build_front(spec, signing, vzone::Front::InMemory), vzone::build_front(spec, signing, vzone::Front::Sqlite)) else {
+    for (si, signing) in sigs.iter().enumerate() {
+        // the wrapper's own knobs take every value across the signings: (allow_update, is_dnssec_enabled) =
+        // (true, "enabled" on the unsigned zone), (false, "disabled" on the NSEC zone), defaults on the rest
+        let wrapper = vzone::BuildOpts {
+            front: vzone::Front::Sqlite,
+            allow_update: si == 0,
+            is_dnssec_enabled: match si {
+                0 => Some(true),
+                1 => Some(false),
+                _ => None,
+            },
+            ..vzone::BuildOpts::default()
+        };
+        let (Ok(a), Ok(b)) = (vzone::build_front(spec, signing, vzone::Front::InMemory), vzone::build_opts(spec, signing, &wrapper)) else {
             l.violation("zone-build-failed", "front-end differential", || json!({"zone": spec.to_json(), "signing": signing.tag()}));
             continue;
         };
@@ -860,7 +956,7 @@ fn run_front_diff(spec: &ZoneSpec, qnames: &[String], sigs: &[Signing], rt: &tok
                     _ => "no-response".to_string(),
                 };
                 l.violation(&format!("front-end-differs:sqlite:{what}:{}", if signing.is_signed() { "do=1" } else { "do=0" }), &format!("{qn} {}: the SqliteZoneHandler front end answers differently from the in-memory store it wraps", rz::type_name(t)), || {
-                    let mut j = case_json(spec, signing, false, qn, t);
+                    let mut j = case_json(spec, &Mat::std(signing, false), qn, t);
                     j["level"] = json!("front");
                     j
                 });
@@ -962,32 +1058,32 @@ fn main() {
 
     if let Some((_key, case)) = ctx.replay_case() {
         let spec = ZoneSpec::from_json(&case["zone"]).unwrap_or_else(|| vcore::machinery_exit("bad zone in replay"));
-        let signing = Signing::from_tag(case["signing"].as_str().unwrap_or("unsigned")).unwrap_or(Signing::Unsigned);
+        let mat = Mat::from_json(&case);
+        let signing = mat.signing.clone();
         let qname = case["qname"].as_str().unwrap_or("z.").to_string();
         let qtype = case["qtype"].as_u64().unwrap_or(1) as u16;
-        let upper = case["upper_case_names"].as_bool().unwrap_or(false);
         let rt = vsim::rt();
         ctx.with_local(|l| {
             if case["level"].as_str() == Some("front") {
-                run_front_diff(&spec, &[qname.clone()], &[signing.clone()], &rt, l);
+                run_front_diff(&spec, &[qname.clone()], &[Signing::Unsigned, Signing::Nsec, signing.clone()], &rt, l);
                 return;
             }
             let zone = spec.reference();
             let res = rz::resolve(&zone, &Name::parse(&qname), qtype);
-            match build_mat(&spec, &signing, upper) {
+            match build_mat(&spec, &mat) {
                 Err(e) => l.violation("zone-build-failed", &e, || case.clone()),
                 Ok(b) => {
                     // show the response that is being judged
-                    let sent = if upper { qname.to_ascii_uppercase() } else { qname.clone() };
-                    if let Ok(m) = vzone::ask(&rt, &b.catalog, &sent, qtype, signing.is_signed()) {
-                        eprintln!("replay: rcode={:?} aa={}", m.metadata.response_code, m.metadata.authoritative);
+                    let sent = if mat.upper { qname.to_ascii_uppercase() } else { qname.clone() };
+                    if let Ok(m) = vzone::ask_raw(&rt, &b.catalog, &vzone::query_bytes_shape(&sent, qtype, &mat.shape)).and_then(|x| Message::from_vec(&x).map_err(|e| e.to_string())) {
+                        eprintln!("replay: [{}] rcode={:?} aa={}", mat.tag(), m.metadata.response_code, m.metadata.authoritative);
                         for (sec, rrs) in [("answer", &m.answers), ("authority", &m.authorities), ("additional", &m.additionals)] {
                             for r in rrs {
                                 eprintln!("replay:   {sec}: {r}");
                             }
                         }
                     }
-                    if let Some((vd, resp)) = run_query(&b, &zone, &facts_of(&zone), &res, &qname, upper, qtype, &rt, l) {
+                    if let Some((vd, resp)) = run_query(&b, &zone, &facts_of(&zone), &res, &qname, &mat, qtype, &rt, l) {
                         eprintln!("replay: expected {:?}\nreplay: response {resp}", res.steps);
                         l.violation(&vd.key, &vd.what, || case.clone());
                     }
@@ -999,11 +1095,12 @@ fn main() {
 
     ctx.set_rule(
         "every zone = apex + <=K owners of U(d) (labels {a,b,*}) x node kinds {A,TXT,A+TXT,MX,CNAME->{a.z.,b.z.,a.a.z.,x.o.},NS,NS+glue,NS+DS} \
-         (quick d=2,K<=2; thorough adds d=2,K=3 over 8 kinds [unsigned+NSEC] and d=3,K<=2 [unsigned+NSEC+NSEC3]) plus CNAME chains 1..9 / loops 1..3 and 1296 four-label single-branch zones (a.z. .. a.a.a.a.z. each absent/A/NS x wildcard A at any subset of the four levels), x every query name of {apex, U(3), x.o., names below cuts} \
+         (quick d=2,K<=2; thorough adds d=2,K=3 over 8 kinds [unsigned+NSEC] and d=3,K<=2 [unsigned+NSEC+NSEC3]) plus CNAME chains 1..9 / loops 1..3 and 1296 four-label single-branch zones (a.z. .. a.a.a.a.z. each absent/A/NS x wildcard A at any subset of the four levels) and the deep slice over {a.z,a.a.z,a.a.a.z,b.a.a.z,*.a.z,*.a.a.z} with an owner 3 labels down (quick K<=2 over {A,TXT,CNAME,NS,NS+DS} and K=3 over {A,NS}; thorough K=3 over {A,TXT,NS,NS+DS}; also asked 4 names one label below the branch), x every query name of {apex, U(3), x.o., names below cuts} \
          x qtypes {A,AAAA,MX,NS,CNAME,SOA,DS,TXT,ANY}, each as a wire query through the real Catalog against the unsigned (DO=0), NSEC-signed and \
          NSEC3-signed (DO=1) zone; oracle = vref::zone (RFC 1034 4.3.2 + RFC 4592) on rcode, answer RR set, referral cut, SOA in negative answers, \
          RRSIG/denial presence. Every zone is also materialised with ALL names in upper case and queried in upper case (unsigned; base family also NSEC), \
-         and zones with <=1 owner + the branch family (thorough: the whole base family) are served through the SqliteZoneHandler wrapper as well: byte-identical responses required. Non-trivial = distinct (zone, qname, reference outcome class) whose class is not a plain exact match (CNAME chain, cut, wildcard, ENT, NODATA, NXDOMAIN).",
+         and zones with <=1 owner + the branch family (thorough: the whole base family) are served through the SqliteZoneHandler wrapper as well (allow_update / is_dnssec_enabled at every value): byte-identical responses required; \
+         the same zones (+ chains) are also run under four non-default knob settings: NSEC zone asked with OPT DO=0 payload 512 RD+CD+AD; NSEC3 zone asked without OPT; unsigned zone asked with DO=1 as ZoneType::Secondary with AxfrPolicy::AllowAll; NSEC zone DO=1 RD+CD payload 1232 as Secondary. Non-trivial = distinct (zone, qname, reference outcome class) whose class is not a plain exact match (CNAME chain, cut, wildcard, ENT, NODATA, NXDOMAIN).",
     );
     ctx.assume("vref::zone (RFC 1034 4.3.2 / RFC 4592 reference lookup; self-tested against RFC 4592 2.2.1/3.3.1 and RFC 4034 6.1 on every run)");
     ctx.assume("zone contents reach the server through InMemoryZoneHandler::upsert_mut and the real secure_zone_mut; Ed25519 (ring) signs deterministically");
@@ -1016,25 +1113,59 @@ fn main() {
     // upper-case materialisations: unsigned for every zone; thorough: unsigned + NSEC for the base family
     let up1 = vec![Signing::Unsigned];
     let up2 = vec![Signing::Unsigned, Signing::Nsec];
-    let mut jobs: Vec<(ZoneSpec, &Vec<Signing>, &Vec<Signing>)> = vec![];
+    // non-default configuration / request shapes (every knob the server-side code reads while answering):
+    //  K1 NSEC zone, OPT present with DO=0, payload 512, RD+CD+AD set;
+    //  K2 NSEC3 zone, no OPT at all;
+    //  K3 unsigned zone asked with DO=1, ZoneType::Secondary, AxfrPolicy::AllowAll;
+    //  K4 NSEC zone, DO=1 + RD + CD, Secondary + AllowAll (the DNSSEC clauses are judged here too).
+    let sh = |edns, do_bit, payload, rd, cd, ad| vzone::QueryShape { edns, do_bit, payload, rd, cd, ad };
+    let second = vzone::BuildOpts { secondary: true, axfr_allow_all: true, ..vzone::BuildOpts::default() };
+    let knobs: Vec<Mat> = vec![
+        Mat { signing: Signing::Nsec, upper: false, shape: sh(true, false, 512, true, true, true), opts: vzone::BuildOpts::default() },
+        Mat { signing: Signing::Nsec3 { iterations: 0, salt: vec![], opt_out: false }, upper: false, shape: vzone::QueryShape::PLAIN, opts: vzone::BuildOpts::default() },
+        Mat { signing: Signing::Unsigned, upper: false, shape: vzone::QueryShape::DO, opts: second },
+        Mat { signing: Signing::Nsec, upper: false, shape: sh(true, true, 1232, true, true, false), opts: second },
+    ];
+    let no_knobs: Vec<Mat> = vec![];
+    let mut jobs: Vec<(ZoneSpec, &Vec<Signing>, &Vec<Signing>, &Vec<Mat>)> = vec![];
     let base = vzone::family("z.", &vzone::universe(2), 2, &vzone::ALL_KINDS);
     if thorough {
         // (C) d=2, K<=2, all kinds: all four materialisations
-        jobs.extend(base.iter().cloned().map(|s| (s, &all4, &up2)));
+        jobs.extend(base.iter().cloned().map(|s| (s, &all4, &up2, &knobs)));
         // (A) d=2, K=3, reduced kinds (one CNAME target in, one deeper; no MX): unsigned + NSEC
         let reduced = [Kind::A, Kind::Txt, Kind::ATxt, Kind::CnameA, Kind::CnameAA, Kind::Ns, Kind::NsGlue, Kind::NsDs];
         jobs.extend(
-            vzone::family("z.", &vzone::universe(2), 3, &reduced).into_iter().filter(|s| s.owners.len() == 3).map(|s| (s, &two, &up1)),
+            vzone::family("z.", &vzone::universe(2), 3, &reduced).into_iter().filter(|s| s.owners.len() == 3).map(|s| (s, &two, &up1, &no_knobs)),
         );
         // (B) d=3, K<=2, all kinds, at least one depth-3 owner: unsigned + NSEC + NSEC3
         jobs.extend(
             vzone::family("z.", &vzone::universe(3), 2, &vzone::ALL_KINDS)
                 .into_iter()
                 .filter(|s| s.owners.iter().any(|(o, _)| o.matches('.').count() == 4))
-                .map(|s| (s, &quick3, &up1)),
+                .map(|s| (s, &quick3, &up1, &no_knobs)),
         );
     } else {
-        jobs.extend(base.iter().cloned().map(|s| (s, &quick3, &up1)));
+        // quick: the knob materialisations for the zones with <= 1 owner (and the branch and chain families below)
+        // (the same holds for the upper-case materialisation: every dimension stays in quick, the depth is thorough's)
+        let no_sigs: Vec<Signing> = vec![];
+        let no_up: &Vec<Signing> = Box::leak(Box::new(no_sigs));
+        jobs.extend(base.iter().cloned().map(|s| {
+            let small = s.owners.len() <= 1;
+            (s, &quick3, if small { &up1 } else { no_up }, if small { &knobs } else { &no_knobs })
+        }));
+    }
+    // the deep slice (both tiers): one branch three labels deep with a sibling at the bottom and wildcards at both inner
+    // levels - empty non-terminals whose first descendant is two or more labels below them, an empty non-terminal above
+    // another, a wildcard below them. quick: <= 2 owners over {A, TXT, CNAME->a.z., NS, NS+DS} and 3 owners over {A, NS};
+    // thorough (which has every <= 2 owner zone in family (B)): 3 owners over {A, TXT, NS, NS+DS}
+    {
+        let deep = if thorough {
+            vzone::deep_family(&[], Some(&[Kind::A, Kind::Txt, Kind::Ns, Kind::NsDs]))
+        } else {
+            vzone::deep_family(&[Kind::A, Kind::Txt, Kind::CnameA, Kind::Ns, Kind::NsDs], Some(&[Kind::A, Kind::Ns]))
+        };
+        ctx.set("deep_slice_zones", json!(deep.len()));
+        jobs.extend(deep.into_iter().map(|s| (s, &quick3, &up1, &no_knobs)));
     }
     let chain_sigs = if thorough { &all4 } else { &quick3 };
     let chains = chain_family();
@@ -1048,7 +1179,7 @@ fn main() {
         if p.len() == 2 {
             jobs = jobs[p[0].min(jobs.len())..p[1].min(jobs.len())].to_vec();
             ctx.cap(&format!("VERIF_C10_RANGE={r}: only a slice of the job list was run"));
-            for (s, _, _) in &jobs {
+            for (s, _, _, _) in &jobs {
                 eprintln!("job: {s}");
             }
         }
@@ -1063,9 +1194,17 @@ fn main() {
         4,
         |_| vsim::rt(),
         |i, l, rt| {
-            let (spec, sigs, upper_sigs) = &jobs[i as usize];
-            let qnames = spec.query_names(3);
-            run_zone(spec, &qnames, sigs, upper_sigs, rt, l, i % stride == 0);
+            let (spec, sigs, upper_sigs, k) = &jobs[i as usize];
+            let mut qnames = spec.query_names(3);
+            // zones with an owner three labels down are also asked one label below the branch
+            if vzone::is_deep(spec) {
+                for q in vzone::DEEP_QUERIES {
+                    if !qnames.iter().any(|x| x == q) {
+                        qnames.push(q.to_string());
+                    }
+                }
+            }
+            run_zone(spec, &qnames, sigs, upper_sigs, k, rt, l, i % stride == 0);
         },
     );
     ctx.par_run_init(
@@ -1074,7 +1213,7 @@ fn main() {
         |_| vsim::rt(),
         |i, l, rt| {
             let (spec, q) = &chains[i as usize];
-            run_zone(spec, q, chain_sigs, &up1, rt, l, i == 26);
+            run_zone(spec, q, chain_sigs, &up1, &knobs, rt, l, i == 26);
         },
     );
     // one branch, four labels deep (1296 zones)
@@ -1086,7 +1225,7 @@ fn main() {
         |_| vsim::rt(),
         |i, l, rt| {
             let (spec, q) = &branches[i as usize];
-            run_zone(spec, q, &quick3, &up2, rt, l, i == 700);
+            run_zone(spec, q, &quick3, &up2, &knobs, rt, l, i == 700);
         },
     );
     // front-end differential (SqliteZoneHandler over the same store): zones with <= 1 owner and the
@@ -1095,7 +1234,8 @@ fn main() {
         .iter()
         .filter(|s| thorough || s.owners.len() <= 1)
         .map(|s| (s, s.query_names(3)))
-        .chain(branches.iter().map(|(s, q)| (s, q.clone())))
+        // quick: the branch zones without and with all four wildcards (162 of 1296)
+        .chain(branches.iter().enumerate().filter(|(i, _)| thorough || i % 16 == 0 || i % 16 == 15).map(|(_, (s, q))| (s, q.clone())))
         .collect();
     ctx.set("front_end_zones", json!(front.len()));
     ctx.par_run_init(
@@ -1124,6 +1264,10 @@ fn main() {
         "zones:unsigned:upper-case",
         "zones:signed:upper-case",
         "front:sqlite:identical",
+        "obs:do=0-on-signed-zone:no-dnssec-records",
+        "shape:ent-first-descendant-2-below",
+        "shape:ent-above-ent",
+        "shape:wildcard-below-ent-chain",
     ] {
         if ctx.outcome_count(class) == 0 {
             ctx.machinery_failure(&format!("vacuous run: outcome class {class} never occurred"));
